@@ -218,8 +218,8 @@ class CustomTask(asyncio.Task):
     pass
 
 
-def start_eager(variant, fn, env):
-    """-> (awaitable, ctx_manager or None)"""
+def start_eager(variant, fn, env, msg=None):
+    """-> (awaitable, ctx_manager or None); `msg` = the cancel message a cancelling()/eager_ctx() block is given"""
     if variant == "func_eager":
         def mk(e):
             e.coro = fn(e)
@@ -238,10 +238,10 @@ def start_eager(variant, fn, env):
     if variant == "pytask_factory":
         return asynkit.eager(env.coro, task_factory=pytask_factory), None
     if variant == "eager_ctx":
-        cm = asynkit.eager_ctx(env.coro)
+        cm = asynkit.eager_ctx(env.coro, msg=msg)
         return cm.__enter__(), cm
     if variant == "cancelling":
-        cm = asynkit.cancelling(asynkit.eager(env.coro))
+        cm = asynkit.cancelling(asynkit.eager(env.coro), msg)
         return cm.__enter__(), cm
     return asynkit.eager(env.coro), None
 
@@ -303,14 +303,17 @@ def run_single(case, snapshots=True):
         if mode == "E":
             try:
                 caller = case.get("caller", "task")
+                cancels = [e for e in case["events"] if e[0] == "cancel"]
+                k_exit = case.get("exit_at", 0)
+                ctx_msg = cancels[k_exit][1] if k_exit < len(cancels) and len(cancels[k_exit]) > 1 else None
                 if caller == "task":
-                    t, cm = start_eager(variant, fn, env)
+                    t, cm = start_eager(variant, fn, env, ctx_msg)
                 else:
                     # eager() called from an event-loop *callback* (no current task): call_soon, or
                     # the done-callback of a future.  The callback is the only thing the loop runs
                     # before the driver resumes, so snapshot 0 is still "right after eager() returned".
                     box = []
-                    await in_callback(loop, caller, lambda: box.append(start_eager(variant, fn, env)))
+                    await in_callback(loop, caller, lambda: box.append(start_eager(variant, fn, env, ctx_msg)))
                     t, cm = box[0]
             except BaseException as e:     # eager() itself must never raise what the body raised
                 snaps.append(f"{log_text(env.log)} | !raised:{kind_of(e)} | "
@@ -359,6 +362,8 @@ def run_single(case, snapshots=True):
                 if cm is not None and ncancel[0] >= case.get("exit_at", 0):
                     leave_block(cm, case.get("exit_exc"))
                     cm = None
+                elif len(ev) > 1:
+                    t.cancel(ev[1])         # cancel(msg): the message travels with the CancelledError
                 else:
                     t.cancel()
                 ncancel[0] += 1
@@ -457,7 +462,10 @@ def run_multi(case):
             elif op == "cf":
                 cancel_for_real(futs[ev[1]])
             elif op == "cancel":
-                top[ev[1]].cancel()
+                if len(ev) > 2:
+                    top[ev[1]].cancel(ev[2])
+                else:
+                    top[ev[1]].cancel()
         res["logs"] = [log_text(e.log) for e in envs]
         res["child_logs"] = {str(j): log_text(e.log) for j, e in sorted(child_envs.items())}
         # an awaitable that another coroutine awaited has already handed out its CancelledError
